@@ -16,9 +16,9 @@ import (
 
 func init() {
 	vexplore.Register("C10", func(tier string) []*vexplore.Scenario {
-		b, d := 1, 5
+		b, d := 1, 6
 		if tier == "thorough" {
-			b, d = 2, 6
+			b, d = 2, 7
 		}
 		var out []*vexplore.Scenario
 		for _, k := range kinds.All {
